@@ -414,3 +414,39 @@ class SpecValueCheck(_Check):
                  'module_text': x.spec.text(), 'value': jsonio.enc(x.v)}
             s.update(extra)
             x.rec.sample(s)
+
+
+def map_values(spec, ty, modname, value, fn, _counter=None):
+    """Rebuild value, calling fn(index, resolved, value) -> replacement for every node in the
+    same order as walk_values (pre-order).  fn returns NOVALUE to keep the node."""
+    counter = _counter if _counter is not None else [0]
+    r = asn.resolve(spec, ty, modname)
+    idx = counter[0]
+    counter[0] += 1
+    new = fn(idx, r, value)
+    if new is not NOVALUE:
+        return new
+    b = r.base
+    if b.kind in ('SEQUENCE', 'SET') and isinstance(value, dict):
+        out = {}
+        for m in b.all_members():
+            if m.name in value:
+                out[m.name] = map_values(spec, m.ty, r.mod, value[m.name], fn, counter)
+        for k in value:
+            if k not in out:
+                out[k] = value[k]
+        return out
+    if b.kind == 'CHOICE' and isinstance(value, tuple) and len(value) == 2:
+        for m in b.all_members():
+            if m.name == value[0]:
+                return (value[0], map_values(spec, m.ty, r.mod, value[1], fn, counter))
+        return value
+    if b.kind in ('SEQUENCE OF', 'SET OF') and isinstance(value, list):
+        out = []
+        for i, v in enumerate(value):
+            if i < 50:
+                out.append(map_values(spec, b.elem, r.mod, v, fn, counter))
+            else:
+                out.append(v)
+        return out
+    return value
